@@ -252,7 +252,7 @@ class Check:
     def finish(self):
         os.makedirs(os.path.join(EVID, "replay"), exist_ok=True)
         cov = self.cov
-        cov["evaluations"] = self.evals
+        cov["evaluations"] = self.evals + len(self.violations) + len(self.known_hits)
         cov["distinct_nontrivial"] = len(self.distinct)
         if self.states:
             cov["states"] = self.states
@@ -276,7 +276,11 @@ class Check:
               "violations": len(self.violations)}
         with open(os.path.join(EVID, self.pid + ".json"), "w") as f:
             json.dump(ev, f, indent=1, default=str)
-        validate_evidence(os.path.join(EVID, self.pid + ".json"))
+        try:
+            validate_evidence(os.path.join(EVID, self.pid + ".json"))
+        except Infra:
+            if rc != 1:
+                raise
         log("%s %s: evaluations=%d distinct=%d states=%d traces=%d violations=%d wall=%.1fs" % (
             self.pid, self.tier, self.evals, len(self.distinct), self.states, self.traces,
             len(self.violations), time.time() - self.t0))
@@ -350,6 +354,7 @@ class Rec:
         self.notes = []
         self.data = {}
         self._progress = None
+        self._skip = set()
 
     def case(self, key, nontrivial=True):
         self.cases.append((key, nontrivial))
@@ -363,8 +368,13 @@ class Rec:
             self.samples.append(s)
 
     def progress(self, text):
+        """Announces the next call into the library. Returns False when this call must be skipped (it crashed
+        or hung in a previous attempt and has been reported)."""
+        if text[:250] in self._skip:
+            return False
         if self._progress is not None:
             self._progress.value = text.encode()[:250]
+        return True
 
 
 def _merge(chk, rec):
@@ -377,54 +387,64 @@ def _merge(chk, rec):
     chk.notes.extend(rec.notes)
 
 
-def isolated(chk, label, fn, args=(), timeout=900):
+def isolated(chk, label, fn, args=(), timeout=900, max_restarts=6):
     """Runs fn(rec, *args) in a forked child so that a crash or a hang of the code under test becomes an
-    observation (violation with the last case started) instead of killing the check. Returns rec.data or None."""
+    observation (violation naming the call that was started last) instead of killing the check. After a crash the
+    job is restarted from scratch with that call skipped (fn must honour the return value of rec.progress), so
+    that the rest of the work is still done. Returns rec.data of the attempt that completed, or None."""
     import multiprocessing as mp
     ctx = mp.get_context("fork")
-    prog = ctx.Array("c", 256)
-    parent, child = ctx.Pipe(duplex=False)
+    skip = set()
+    for attempt in range(max_restarts + 1):
+        prog = ctx.Array("c", 256)
+        parent, child = ctx.Pipe(duplex=False)
 
-    def body():
-        rec = Rec(chk.seed, chk.tier)
-        rec._progress = prog
-        try:
-            fn(rec, *args)
-            rec._progress = None
-            child.send(("ok", rec))
-        except Infra as e:
-            child.send(("infra", str(e)))
-        except BaseException:
-            import traceback
-            child.send(("infra", traceback.format_exc()))
+        def body():
+            rec = Rec(chk.seed, chk.tier)
+            rec._progress = prog
+            rec._skip = skip
+            try:
+                fn(rec, *args)
+                rec._progress = None
+                child.send(("ok", rec))
+            except Infra as e:
+                child.send(("infra", str(e)))
+            except BaseException:
+                import traceback
+                child.send(("infra", traceback.format_exc()))
+            child.close()
+            os._exit(0)
+
+        pr = ctx.Process(target=body)
+        pr.start()
         child.close()
-        os._exit(0)
-
-    pr = ctx.Process(target=body)
-    pr.start()
-    child.close()
-    msg = None
-    if parent.poll(timeout):
-        try:
-            msg = parent.recv()
-        except EOFError:
-            msg = None
-    if msg is None:
-        alive = pr.is_alive()
-        if alive:
-            pr.kill()
+        msg = None
+        if parent.poll(timeout):
+            try:
+                msg = parent.recv()
+            except EOFError:
+                msg = None
+        if msg is None:
+            pr.join(3)                      # a crashed child closes the pipe slightly before it can be reaped
+            alive = pr.is_alive()
+            if alive:
+                pr.kill()
+            pr.join()
+            last = prog.value.decode(errors="replace")
+            what = "did not return within %ds" % timeout if alive else "crashed (signal %s)" % (-pr.exitcode if pr.exitcode else pr.exitcode)
+            chk.violation("%s: the library %s in: %s" % (label, what, last),
+                          {"label": label, "last_call": last, "how": what}, finding_key="crash:" + last)
+            if not last or last in skip:
+                return None
+            skip.add(last)
+            continue
         pr.join()
-        last = prog.value.decode(errors="replace")
-        what = "did not return within %ds" % timeout if alive else "crashed (exit %s)" % pr.exitcode
-        chk.violation("%s: the library %s; last call started: %s" % (label, what, last),
-                      {"label": label, "last_call": last, "how": what}, finding_key="crash:" + last)
-        return None
-    pr.join()
-    kind, payload = msg
-    if kind == "infra":
-        raise Infra("%s: %s" % (label, payload))
-    _merge(chk, payload)
-    return payload.data
+        kind, payload = msg
+        if kind == "infra":
+            raise Infra("%s: %s" % (label, payload))
+        _merge(chk, payload)
+        return payload.data
+    return None
 
 
 def isolated_many(chk, jobs, timeout=900, nproc=8):
